@@ -203,3 +203,79 @@ class Recorded(Draws):
 
     def normal(self, loc, scale):
         return self._n["normal"](loc, scale)
+
+
+class Enumerator(Draws):
+    """systematic enumeration of every outcome of the discrete draws of a scenario (depth-first, odometer over the
+    ranges the code actually requests).  Real-valued draws are answered from `real_choices` (list of (value, weight))."""
+
+    def __init__(self, prefix, real_choices=None):
+        super().__init__()
+        self.prefix = list(prefix)
+        self.pos = 0
+        self.trace = []     # (kind, range) per draw
+        self.choice = []    # chosen option per draw
+        self.weight = 1
+        self.real_choices = real_choices
+
+    def _pick(self, kind, n):
+        from fractions import Fraction
+        c = self.prefix[self.pos] if self.pos < len(self.prefix) else 0
+        self.pos += 1
+        self.trace.append((kind, n))
+        self.choice.append(c)
+        return c
+
+    def index(self, n):
+        from fractions import Fraction
+        c = self._pick("index", n)
+        self.weight = self.weight * Fraction(1, n)
+        return c
+
+    def perm(self, n):
+        import itertools
+        import math
+        from fractions import Fraction
+        nf = math.factorial(n)
+        c = self._pick("perm", nf)
+        self.weight = self.weight * Fraction(1, nf)
+        # c-th permutation in lexicographic order
+        items = list(range(n))
+        out = []
+        k = c
+        for i in range(n, 0, -1):
+            f = math.factorial(i - 1)
+            out.append(items.pop(k // f))
+            k %= f
+        return out
+
+    def real(self):
+        from fractions import Fraction
+        if not self.real_choices:
+            raise RuntimeError("real draw in an enumerated scenario without real_choices")
+        c = self._pick("real", len(self.real_choices))
+        v, w = self.real_choices[c]
+        self.weight = self.weight * w
+        return v
+
+
+def enumerate_outcomes(scenario, real_choices=None, limit=200000):
+    """scenario(draws) -> value, run from scratch for every outcome; yields (weight, value, choices)"""
+    prefix = []
+    count = 0
+    while True:
+        d = Enumerator(prefix, real_choices)
+        with d.installed():
+            value = scenario(d)
+        yield d.weight, value, list(d.choice)
+        count += 1
+        if count > limit:
+            raise RuntimeError("enumeration limit exceeded")
+        # advance the odometer
+        ch = list(d.choice)
+        i = len(ch) - 1
+        while i >= 0 and ch[i] + 1 >= d.trace[i][1]:
+            i -= 1
+        if i < 0:
+            return
+        prefix = ch[:i] + [ch[i] + 1]
